@@ -128,7 +128,7 @@ Section WD.
     intros p s j R Hd.
     set (G := fun x => exists j', chk wd j (st_evs x) = Some j' /\ delay_rel mn mx (b_delay (st_st x)) j').
     change (G (step cfg p s)).
-    destruct p; try discriminate; unfold step, loop_once, loop_up, read_pending; bproj.
+    destruct p; try discriminate; unfold step, loop_once, loop_up, lose, read_pending; bproj.
     all: repeat wd1 j.
     all: subst G; wd_leaf.
   Qed.
